@@ -75,7 +75,25 @@ def laterWriteback (S : Schema) (W : World) (f a : Nat) : Bool :=
 def isEnvEvent : Sexp → Bool
   | .list [.atom "drop", _] => true
   | .list [.atom "fresh", _] => true
+  | .list [.atom "falsy", _] => true     -- an instance with its own `__len__` / `__bool__` becomes falsy
+  | .list [.atom "truthy", _] => true
   | _ => false
+
+/-- F-C16-9 is repaired in /repo (`is not None` instead of truthiness): the gate is off; `before_fix=` shows the old
+behaviour -/
+def truthinessGate : Bool := false
+
+/-- every container operation with the quirk record of its moment: the instances falsy right then are `muted`,
+and everything is when the owner `a` is falsy -/
+def gateSteps (Q : Quirks) (a : Nat) (raw : List Sexp) : List (Quirks × COp) :=
+  (raw.foldl (fun (acc : List Nat × List (Quirks × COp)) x =>
+    match x with
+    | .list [.atom "falsy", o] => (match o.asNat? with | some o => (o :: acc.1, acc.2) | none => acc)
+    | .list [.atom "truthy", o] => (match o.asNat? with | some o => (acc.1.filter (· != o), acc.2) | none => acc)
+    | _ => if isEnvEvent x then acc else
+      match parseCOp x with
+      | some op => (acc.1, acc.2 ++ [({ Q with muted := acc.1.filter (· != a), muteAll := acc.1.contains a }, op)])
+      | none => acc) ([], [])).2
 
 def droppedOf (raw : List Sexp) : List Nat :=
   raw.filterMap fun x => match x with | .list [.atom "drop", o] => o.asNat? | _ => none
@@ -86,6 +104,8 @@ def dropsOk (key : Nat → Nat) (isSet : Bool) (σ0 : CState) (raw : List Sexp) 
     match x with
     | .list [.atom "drop", o] => (acc.1, acc.2 && (match o.asNat? with | some o => !acc.1.c.contains o | none => false))
     | .list [.atom "fresh", _] => acc
+    | .list [.atom "falsy", _] => acc
+    | .list [.atom "truthy", _] => acc
     | _ => match parseCOp x with
       | some op => (specStepC key isSet acc.1 op, acc.2)
       | none => (acc.1, false)) (σ0, true)).2
@@ -122,10 +142,18 @@ def run (s : Sexp) : String :=
       let cl := closure R fuel (sp.calls.map fun t => (f, a, t))
       let spec := if cl.2 then showContents isSet sp.c ++ "|" ++ showRels (liveOnly dead cl.1) else "spec-diverged"
       -- F-C16-1..4 and the slice-assignment defects F-C16-7/8 are repaired in /repo (fix commits 1406c8c, 86aebcb,
-      -- 5eefee2): the model tied to the code is `Quirks.none`; `model_before_slice_fix=` is the code before 5eefee2
-      let trig := (if trigSliceTwins key ops then ["F-C16-7"] else []) ++
-        (if trigSliceOneShot ops then ["F-C16-8"] else [])
-      s!"model={out Quirks.none}\tspec={spec}\ttrig={",".intercalate trig}\tmodel_before_slice_fix={out Quirks.now}"
+      -- 5eefee2): the base quirk record of the code is `Quirks.none`; `before_slice_fix=` is the code before 5eefee2.
+      -- The truthiness gate (F-C16-9) is applied step by step (`runG`): which instances are falsy changes over time.
+      let steps := gateSteps Quirks.none a raw
+      let gatedOut : String :=
+        let σ := runG key isSet (start Quirks.none) steps
+        showContents isSet σ.c ++ "|" ++ showRels (liveOnly dead (PD.run R fuel (σ.calls.map fun t => (f, a, t))))
+      let gatedNow := steps.any fun qo => !qo.1.ungated
+      if truthinessGate then
+        s!"model={gatedOut}\tspec={spec}\ttrig={if gatedNow then "F-C16-9" else ""}\tmodel_fixed={out Quirks.none}" ++
+        s!"\tbefore_slice_fix={out Quirks.now}"
+      else
+        s!"model={out Quirks.none}\tspec={spec}\ttrig=\tbefore_fix={gatedOut}\tbefore_slice_fix={out Quirks.now}"
     | _, _, _, _, _, _ => "error=bad-case"
   | .list (.atom "w2" :: items) =>
     match parseSchema items, parseWorld items, (Sexp.field? items "ops").bind (·.mapM parseTOp),
